@@ -24,6 +24,7 @@ import struct
 
 import yaml
 
+from consteval import norm_struct
 from extract import REPO, emit, parse
 from py2lean import Env, Untranslatable, find_function, translate_function
 
@@ -273,16 +274,66 @@ class Src:
             for st in self.classes[c][0].body:
                 if not (isinstance(st, ast.FunctionDef) and st.name in meths):
                     continue
+                al = local_aliases(st)
                 for call in ast.walk(st):
-                    if isinstance(call, ast.Call) and isinstance(call.func, ast.Name) and call.func.id == "pack" and call.args \
-                            and isinstance(call.args[0], ast.Call) and isinstance(call.args[0].func, ast.Attribute) \
-                            and call.args[0].func.attr == "format":
-                        return [expr_str(a) for a in call.args[1:]]
+                    if isinstance(call, ast.Call) and isinstance(call.func, (ast.Name, ast.Attribute)) \
+                            and (call.func.id if isinstance(call.func, ast.Name) else call.func.attr) == "pack" and call.args:
+                        a0 = _Subst(al).visit(copy.deepcopy(call.args[0]))
+                        if isinstance(a0, ast.Call) and isinstance(a0.func, ast.Attribute) and a0.func.attr == "format":
+                            return [expr_str(a, al) for a in call.args[1:]]
         return []
 
 
-def expr_str(e) -> str:
-    """canonical short text of the expression fed into a record / pack call (`self.` stripped)."""
+def local_aliases(fn):
+    """{local name: value node} for the locals of `fn` that are bound exactly once by a plain assignment (never a parameter, loop
+    variable, augmented or tuple target): `sw = self.sw_version; record(..., sw, ...)` reads the same as `record(..., self.sw_version, ...)`."""
+    if fn is None:
+        return {}
+    counts, vals = {}, {}
+    params = {a.arg for a in fn.args.args + fn.args.kwonlyargs + fn.args.posonlyargs}
+
+    def bump(t, v):
+        for n in ast.walk(t):
+            if isinstance(n, ast.Name):
+                counts[n.id] = counts.get(n.id, 0) + 1
+                if n is t and v is not None:
+                    vals[n.id] = v
+    for st in ast.walk(fn):
+        if isinstance(st, ast.Assign):
+            for t in st.targets:
+                bump(t, st.value if len(st.targets) == 1 else None)
+        elif isinstance(st, ast.AnnAssign) and st.value is not None:
+            bump(st.target, st.value)
+        elif isinstance(st, (ast.AugAssign, ast.NamedExpr)):
+            bump(st.target, None)
+            counts[getattr(st.target, "id", "?")] = 2
+        elif isinstance(st, (ast.For, ast.AsyncFor, ast.comprehension)):
+            bump(st.target, None)
+            for n in ast.walk(st.target):
+                if isinstance(n, ast.Name):
+                    counts[n.id] = 2
+        elif isinstance(st, (ast.With, ast.AsyncWith)):
+            for it in st.items:
+                if it.optional_vars is not None:
+                    bump(it.optional_vars, None)
+    return {n: v for n, v in vals.items() if counts.get(n) == 1 and n not in params}
+
+
+class _Subst(ast.NodeTransformer):
+    def __init__(self, aliases, depth=0):
+        self.aliases, self.depth = aliases, depth
+
+    def visit_Name(self, node):
+        if isinstance(node.ctx, ast.Load) and node.id in self.aliases and self.depth < 4:
+            return _Subst(self.aliases, self.depth + 1).visit(copy.deepcopy(self.aliases[node.id]))
+        return node
+
+
+def expr_str(e, aliases=None) -> str:
+    """canonical short text of the expression fed into a record / pack call (`self.` stripped, single-assignment locals replaced by
+    the expression they name, numbers in decimal)."""
+    if aliases and e is not None:
+        e = _Subst(aliases).visit(copy.deepcopy(e))
     if isinstance(e, ast.IfExp):
         return expr_str(e.body) + "?" + expr_str(e.orelse)
     try:
@@ -322,6 +373,7 @@ def range_records(src: Src, cname: str, meth: str):
     out = []
     if fn is None:
         return out
+    al = local_aliases(fn)
     calls = [c for c in ast.walk(fn) if isinstance(c, ast.Call) and isinstance(c.func, ast.Attribute)
              and c.func.attr in ("add_record_bit_range", "add_record_range")]
     calls.sort(key=lambda c: (c.lineno, c.col_offset))
@@ -333,13 +385,13 @@ def range_records(src: Src, cname: str, meth: str):
         if c.func.attr == "add_record_bit_range":
             bits_node = args[2] if len(args) > 2 else kw.get("bit_range")
             bits = src.value(cname, bits_node) if bits_node is not None else 32
-            out.append({"kind": "bits", "name": name, "value": expr_str(val), "bits": bits if isinstance(bits, int) else -1})
+            out.append({"kind": "bits", "name": name, "value": expr_str(val, al), "bits": bits if isinstance(bits, int) else -1})
         else:
             mn = args[2] if len(args) > 2 else kw.get("min_val")
             mx = args[3] if len(args) > 3 else kw.get("max_val")
             mnv = src.value(cname, mn) if mn is not None else 0
             mxv = src.value(cname, mx) if mx is not None else (1 << 32) - 1
-            out.append({"kind": "range", "name": name, "value": expr_str(val),
+            out.append({"kind": "range", "name": name, "value": expr_str(val, al),
                         "min": mnv if isinstance(mnv, int) else expr_str(mn), "max": mxv if isinstance(mxv, int) else expr_str(mx)})
     return out
 
@@ -446,6 +498,10 @@ def gen_AhabConsts():
         if fmt is None:
             meta["problems"].append(f"format of {cname} not resolvable")
             fmt = "<"
+        try:
+            fmt = norm_struct(fmt)          # spelling-independent: '<4I' == '<IIII' == '<LLLL'
+        except Exception:  # noqa: BLE001
+            pass
         ws = fmt_widths(fmt)
         ints = [w for k, w in ws if k == "i"]
         strs = [(i, w) for i, (k, w) in enumerate(ws) if k == "s"]
